@@ -153,7 +153,7 @@ class DiscoveryCommunity(Community):
             peers = self.network.verified_peers
             matches = [p for p in peers if p.mid == introduce_to]
             introduction = matches[0] if matches else None
-        packet = self.create_introduction_response(payload.destination_address, source_address, payload.identifier,
+        packet = self.create_introduction_response(payload.source_lan_address, source_address, payload.identifier,
                                                    introduction=introduction, new_style=False)
         self.endpoint.send(source_address, packet)
 
